@@ -2,6 +2,8 @@
 
 from typing import Optional, Union, Tuple, List, Any, Callable
 
+import threading
+
 import joblib
 import numpy as np
 
@@ -135,18 +137,24 @@ def eval_top_down(
     if not inplace:
         x = np.copy(x)
 
+    # Parents evaluated concurrently can share a child, hence serialize the updates of the masks
+    masks_lock = threading.Lock()
+
     def eval_backward(n):
         if isinstance(n, Leaf):
             mask = np.ix_(masks[n.id], n.scope)
             x[mask] = leaf_func(n, x[mask], **leaf_func_kwargs)
         elif isinstance(n, Product):
             for c in n.children:
-                masks[c.id] |= masks[n.id]
+                with masks_lock:
+                    masks[c.id] |= masks[n.id]
         elif isinstance(n, Sum):
             children_lls = np.stack([lls[c.id] for c in n.children], axis=1)
             branch = sum_func(n, children_lls, **sum_func_kwargs)
             for i, c in enumerate(n.children):
-                masks[c.id] |= masks[n.id] & (branch == i)
+                branch_mask = masks[n.id] & (branch == i)
+                with masks_lock:
+                    masks[c.id] |= branch_mask
         else:
             raise NotImplementedError(f"Top down evaluation not implemented for node of type {n.__class__.__name__}")
 
